@@ -3,8 +3,8 @@
    error; the fuel every loop is given is a function of the input length, so
    "never out of fuel" is the termination proof. *)
 From Coq Require Import List NArith ZArith Bool Arith.
-From VerifModel Require Import C01Prim C01 C02.
-From VerifProof Require Import C01Proofs C02Proofs.
+From VerifModel Require Import C01Prim C01 C01Pss C02.
+From VerifProof Require Import C01Proofs C01PssProofs C02Proofs.
 Import ListNotations.
 
 (* ---------------- encoding/asn1 ---------------- *)
@@ -83,3 +83,20 @@ Theorem C01_self_signature_check_unrepaired_panics : forall perm,
   self_sig_check false perm true AEd (SEd 31) = Panic.
 Proof. exact self_sig_check_unrepaired_panics. Qed.
 Print Assumptions C01_self_signature_check_unrepaired_panics.
+
+(* ---------------- rsa: emsaPSSVerify index arithmetic (model in C01Pss.v) ---------------- *)
+(* for every salt-length option VerifyPSS lets through (>= -1), every hash size, every encoded
+   message and whatever the unmasking leaves in DB, no slice or index of emsaPSSVerify is out of range *)
+Theorem C01_rsa_pss_verify_total : forall hLen mLen em emBits sLen0 db_after h_ok,
+  (0 <= hLen)%Z -> (-1 <= sLen0)%Z -> (0 <= emBits)%Z ->
+  zlen db_after = ((emBits + 7) / 8 - hLen - 1)%Z ->
+  pss_verify false hLen mLen em emBits sLen0 db_after h_ok <> Panic.
+Proof. exact pss_verify_total. Qed.
+Print Assumptions C01_rsa_pss_verify_total.
+
+(* the independently seeded change (PSSSaltLengthEqualsHash resolved only after step 9) panics:
+   SHA-256 with a 264-bit modulus *)
+Theorem C01_rsa_pss_verify_moved_resolution_panics :
+  pss_verify true 32 32 (repeat 0%N 32 ++ [188%N]) 263 salt_equals_hash (@nil N) true = Panic.
+Proof. exact pss_verify_moved_panics. Qed.
+Print Assumptions C01_rsa_pss_verify_moved_resolution_panics.
